@@ -483,7 +483,7 @@ def run(ctx: lib.Ctx) -> None:
     ctx.corpus_cases = len(all_cases)
     all_cases += build_cases(ctx)
 
-    coq_cases, meta, direct_bad = [], [], []
+    coq_cases, meta, direct_bad, lenient_cases = [], [], [], []
     reported = 0
     for kind, op, args in all_cases:
         text = program(op, args)
@@ -492,7 +492,11 @@ def run(ctx: lib.Ctx) -> None:
         ctx.case((op, tuple(args)), nontrivial=kind in ('well', 'corpus') and nontrivial(op, args), kind=f'{op}:{kind}',
                  sample={'program': text if len(text) < 300 else text[:300] + '...', 'result': jsonable(obs)})
         ctx.dist['overload ' + op + ' ' + ' '.join(tys)] += 0  # keep the key space visible without flooding
-        if obs[0] == 'other':
+        if (op, tys) in LENIENT and all(valid_operand(t, v) for t, v in args):
+            # accepted by pytezos beyond the reference typing: outside the property; compared with the model for the
+            # record only, a disagreement here (e.g. after a stricter type check lands) is reported in evidence, not alarmed on
+            lenient_cases.append((coq_case(op, args), coq_out(obs) if obs[0] != 'other' else 'Reject'))
+        elif obs[0] == 'other':
             direct_bad.append((text, obs))
         else:
             coq_cases.append((coq_case(op, args), coq_out(obs)))
@@ -534,6 +538,9 @@ def run(ctx: lib.Ctx) -> None:
                                                                   'repro': f"Interpreter().execute({w['program']!r})"})
 
     bad = ctx.coq_mismatches('arith', IMPORTS, 'fun c => run (fst c) (snd c)', 'res_eqb', 'op * list val', 'result val', coq_cases)
+    lbad = ctx.coq_mismatches('lenient', IMPORTS, 'fun c => run (fst c) (snd c)', 'res_eqb', 'op * list val', 'result val', lenient_cases)
+    ctx.extra['lenient_acceptances'] = {'cases': len(lenient_cases), 'differ_from_model': len(lbad),
+                                        'note': 'AND nat int, INT mutez, BYTES mutez/timestamp: outside the reference typing, not part of the verdict'}
     ctx.extra['model_disagreements'] = len(bad) + len(direct_bad)
     if reported == 0 and (bad or direct_bad):
         if bad:
